@@ -116,6 +116,12 @@ def gen_message_history(rng, n, strict=False, reject=False):
             ops.append(['mdeli', s.lower(), rng.randrange(0, 3)])
         else:
             ops.append(['mpath', s.lower(), '%s_1' % s.lower(), rng.choice(['7', '8'])])
+        if rng.random() < .25:
+            # one level of groups: segments reached, added and deleted through a group of the message
+            g, gs = rng.choice([('ADT_A01_INSURANCE', ['IN1', 'IN2', 'IN3']), ('ADT_A01_PROCEDURE', ['PR1', 'ROL'])])
+            sg = rng.choice(gs)
+            ops.append(rng.choice([['gset', g, sg, '%s|%s' % (sg, rng.choice(['1', '2']))], ['gset', g, sg, '%s|%s' % (sg, rng.choice(['1', '2']))],
+                                   ['gadd', g, sg, '%s|%s' % (sg, rng.choice(['1', '2']))], ['gdel', g, sg], ['gdelgroup', g]]))
         if reject and rng.random() < .3:
             ops.append(rng.choice([['mset', 'pid', 'NK1|1'], ['mdel', 'al1'], ['madd_otherlevel', s, txt], ['mset', 'foo', 'FOO|1'], ['madd_field']]))
     return {'root': 'message', 'structure': 'ADT_A01', 'version': '2.5', 'strict': strict, 'ops': ops}
@@ -128,6 +134,7 @@ class Spec:
 
     def __init__(self):
         self.items = []
+        self.groups = {}          # group name -> (Spec of its segments, structure order of the group or None)
 
     def reps(self, name):
         return [i for i, (n, _) in enumerate(self.items) if n == name]
@@ -173,12 +180,17 @@ class Spec:
     def enc_message(self, order=None):
         """TOLERANT: insertion order.  STRICT (`order` = the structure's child names): the per-name lists of repetitions
         in structure order, then the children the structure does not name, in insertion order"""
+        def text(n, t):
+            if n in self.groups:
+                sub, sub_order = self.groups[n]
+                return sub.enc_message(sub_order)
+            return t
         if order is None:
-            return '\r'.join(t for _, t in self.items)
+            return '\r'.join(x for x in (text(n, t) for n, t in self.items) if x != '' or True)
         out = []
         for nm in order:
-            out += [t for n, t in self.items if n == nm]
-        out += [t for n, t in self.items if n not in order]
+            out += [text(n, t) for n, t in self.items if n == nm]
+        out += [text(n, t) for n, t in self.items if n not in order]
         return '\r'.join(out)
 
 
@@ -223,6 +235,14 @@ def invariants(root):
             want = [c for c in kids if c.name == n]
             if by_name is not None and (len(by_name) != len(want) or any(a is not b for a, b in zip(by_name, want))):
                 bad.append('lookup-by-name-vs-list:%s.%s' % (el.name, n))
+            # ... and the public view of the same thing: the proxy returned for that name (cached per name by the library)
+            try:
+                px = el.children.get(n)
+                via = [x for x in px] if px is not None else None
+                if via is not None and (len(px) != len(want) or len(via) != len(want) or any(a is not b for a, b in zip(via, want))):
+                    bad.append('proxy-vs-list:%s.%s' % (el.name, n))
+            except Exception as e:  # noqa
+                bad.append('proxy-raises:%s.%s:%s' % (el.name, n, type(e).__name__))
         for n, lst in el.children.indexes.items():
             for c in lst:
                 if not any(c is x for x in kids):
@@ -277,6 +297,7 @@ def run_history(h):
         exc = None
         extra = []
         mark = {'before': before, 'spec': sp_before}
+        groups_before = {k: (list(v[0].items), v[1]) for k, v in spec.groups.items()}
 
         def substep():
             # a composite op: the API call made so far succeeded; atomicity is judged for the call that follows
@@ -499,6 +520,35 @@ def run_history(h):
                     spec.items[i] = (seg, '|'.join(old))
                 else:
                     spec.add(seg, '%s|%s' % (seg, op[3]))
+            elif kind in ('gset', 'gadd', 'gdel', 'gdelgroup'):
+                g = op[1]
+                had_group = any(n == g for n, _ in spec.items)
+                if kind == 'gdelgroup':
+                    delattr(root, g.lower())
+                    spec.delete(g, 0)
+                    spec.groups.pop(g, None)
+                elif kind == 'gdel':
+                    if had_group:
+                        delattr(getattr(root, g.lower()), op[2].lower())
+                        spec.groups[g][0].delete(op[2], 0)
+                    else:
+                        raise KeyError('no such group in this history')
+                else:
+                    grp = getattr(root, g.lower())
+                    if kind == 'gset':
+                        setattr(grp, op[2].lower(), op[3])
+                    else:
+                        sgm = Segment(op[2], version=v, validation_level=lvl)
+                        sgm.value = op[3]
+                        grp.add(sgm)
+                    if not had_group:
+                        spec.add(g, '')
+                        gobj = [c for c in root.children if c.name == g][0]
+                        spec.groups[g] = (Spec(), list(gobj.ordered_children) if h['strict'] else None)
+                    if kind == 'gset':
+                        spec.groups[g][0].set(op[2], op[3])
+                    else:
+                        spec.groups[g][0].add(op[2], op[3])
             elif kind == 'madd_otherlevel':
                 s = Segment(op[1], version=v, validation_level=other_lvl)
                 extra.append(s)
@@ -510,6 +560,11 @@ def run_history(h):
         except Exception as e:  # noqa
             exc = vlib.exc_name(e)
             spec.items = mark['spec']
+            spec.groups = {}
+            for k, (its, o) in groups_before.items():
+                sp = Spec()
+                sp.items = list(its)
+                spec.groups[k] = (sp, o)
         before = mark['before']
         after = observe(root)
         inv = invariants(root)
